@@ -49,3 +49,36 @@ package forkjoin
 //@ loop 2 invariant ncalls("go func") == $i && (len(opts) > 0 ==> wSet == options.workers)
 //@ ensures len(opts) > 0 && wSet >= 0 ==> ncalls("go func") == wSet
 
+
+// ---- bookkeeping: one wait-group unit per forked input, released exactly once; results closed only after all ----
+// enqueue's goroutine: the result carries this input, output and error, and the input's wait-group unit is released
+// exactly once whether the result is delivered or dropped.
+//@ func New$2
+//@ props C19
+//@ callreq send results: a1.Input == in && a1.Output == out && a1.Err == err
+//@ ensures ncalls(wg.Done) == 1
+
+// fork: one wait-group unit is taken per call before the input is offered; it is given back here only when the input
+// was not enqueued (root context done), otherwise by the result's delivery.
+//@ func New$4
+//@ props C19
+//@ callreq send input: a1 == i && ncalls(wg.Add) == 1
+//@ ensures ncalls(wg.Add) == 1 && ncalls(wg.Done) <= 1
+//@ ensures ncalls("send input") == 1 ==> ncalls(wg.Done) == 0
+//@ ensures ncalls("send input") == 0 ==> ncalls(wg.Done) == 1
+
+// join: closes the input queue once and hands out the results channel; the results channel is closed only after every
+// taken unit was released.
+//@ func New$6
+//@ props C19
+//@ ensures ncalls(close) == 1 && result == results
+
+//@ func New$7
+//@ props C19
+//@ callreq close: ncalls(wg.Wait) == 1
+//@ ensures ncalls(wg.Wait) == 1 && ncalls(close) == 2
+
+// cancel: drops undelivered results and cancels the shared work context.
+//@ func New$8
+//@ props C19
+//@ ensures ncalls(close) == 1 && ncalls(cancelWorkers) == 1
